@@ -356,8 +356,15 @@ def _clip(o, n=1200):
 def do_replay(mod, path, workers) -> int:
     doc = json.load(open(path))
     r = Runner(mod, "quick", doc.get("seed", 1), 0, workers)
-    rec = r.exec_cases([doc["case"]], workers=1)[0]
     exp = doc.get("expect")
+    tries = int(getattr(mod, "REPLAY_TRIES", 1))
+    junk = []
+    for attempt in range(tries):
+        # properties whose violations depend on object-address reuse may need more than one process image to show again
+        rec = r.exec_cases([doc["case"]], workers=1)[0]
+        if rec is None or "_harness" in rec or rec.get("violations"):
+            break
+        junk.append(bytearray(4096 * (attempt + 1) * 37))
     found = []
     if rec is not None and "_harness" in rec:
         v = r._classify_harness(rec, {"case": doc["case"]})
